@@ -10,10 +10,12 @@ use std::ops::Deref;
 
 //@@ INCLUDE conv_types.inc.rs
 //@@ INCLUDE conv_imports_stub.inc.rs
+//@@ TYPE src/check/name/true_name/mod.rs | struct | TrueName
 
 verus! {
 
 //@@ INCLUDE conv_ext.inc.rs
+#[verifier::external_type_specification] pub struct ExTrueName(TrueName);
 
 pub mod clss { pub mod python {
 //@@ CONST src/check/context/clss/python.rs | RANGE
@@ -402,6 +404,29 @@ pub open spec fn builder_post(ast: ASTTy, state: State, ctx: Context, c: Core) -
         r matches Ok(c) ==> builder_post(*ast, *state, *ctx, c),                 //# comprehension_keeps_item_generator_and_conditions [C01]
         forall|m: Seq<char>, n: Seq<char>| imp_has_from(*old(imp), m, n) ==> imp_has_from(*final(imp), m, n),   //# imports_only_grow [C16]
 //@@ END
+
+// ---- typing import for nullable types (C16: Optional is imported whenever it is emitted) --------------------------------
+impl Name {
+    #[verifier::external_body]
+    pub fn from(name: &StringName) -> Name { unimplemented!() }
+}
+#[verifier::external_body]
+pub fn core_type(lit: &str, generics: &[Name], imp: &mut Imports) -> (r: Core)
+    ensures r matches Core::Type { lit: l, generics: g } && l@ == lit@, forall|m: Seq<char>, n: Seq<char>| imp_has_from(*old(imp), m, n) ==> imp_has_from(*final(imp), m, n),
+{ unimplemented!() }
+
+impl TrueName {
+//@@ FN src/check/name/true_name/mod.rs | impl Nullable for TrueName | is_nullable
+    ensures r == self.is_nullable,
+//@@ END
+//@@ FN src/generate/name.rs | impl ToPy for TrueName | to_py | as=true_name_to_py
+    ensures
+        // whenever the emitted type is `Optional[..]`, `from typing import Optional` is registered
+        (r matches Core::Type { lit, generics } && lit@ == "Optional"@ && self.is_nullable) ==> imp_has_from(*final(imp), "typing"@, "Optional"@),   //# optional_import_registered [C16]
+        self.is_nullable ==> (r matches Core::Type { lit, generics } && lit@ == "Optional"@),   //# nullable_type_is_emitted_as_optional [C16]
+        forall|m: Seq<char>, n: Seq<char>| imp_has_from(*old(imp), m, n) ==> imp_has_from(*final(imp), m, n),   //# imports_only_grow [C16]
+//@@ END
+}
 
 } // verus!
 
